@@ -354,6 +354,34 @@ def matching_search(rep, rng, tier, prop, decoders=None):
                    'trace text must equal the isolated rendering of its matching (START, END) pair')
     n = 150 if tier == 'quick' else 4000
     names = decoders or MATCH_DECODERS
+    # long windows: a call enclosing more than a thousand records of its thread is still rendered from its own START
+    for name, nested in (('BSC_pread', 1023), ('MSC_mach_vm_allocate_trap', 1500), ('BSC_read', 1024)):
+        s = Stream(rng)
+        a = [x + 3 for x in (good_args(name) or [1, 2, 3, 4])]
+        e = [0, 4592, 0, 0]
+        s.ev(name, START, 11, a)
+        for _ in range(nested):
+            s.ev('MACH_SCHED', NONE, 11, [0, 0x1111, 0x2222, 0x3333])
+        s.ev(name, END, 11, e)
+        case = make_case_from(s.recs)
+        outs, err, parser = run_traces(case)
+        sec['cases'] += 1
+        def part0(t):
+            sp = D.split_call(t) if not t.startswith('!') else None
+            if sp is None:
+                return t
+            return t[:len(t) - len(sp[2])] if prop == 'C09' else sp[2]
+        c = {'name': name, 'start': a, 'end': e, 'tid': 11, 'lookups': [], 'gs': {}, 'tp': {}, 'tn': {}}
+        full = D.text_of(D.impl_fn(c))
+        callname = full.split('(')[0]
+        got = [part0(x) for x in (hs_decode(o['text']) for o in outs) if x.split('(')[0] == callname]
+        exp = [part0(full)]
+        if got != exp or err != '-':
+            rep.add_failure('matching:%s:long-window' % prop,
+                            '%s enclosing %d records: traces %r, expected %r (exception %s)' % (name, nested, got, exp, err),
+                            {'section': 'matching-records', 'decoder': name, 'nested': nested, 'start': a, 'end': e})
+        else:
+            sec['distinct_nontrivial'] += 1
     for _ in range(n):
         s = Stream(rng)
         tids = [11, 12, 13][:rng.choice([1, 1, 2, 3])]
